@@ -262,6 +262,21 @@ func (h *harness) checkBlocks(ev int, oracle string, mem memory.Memory, m *bytem
 	if !sameRanges(g, want) {
 		return !h.ctx.Fail(h.prop, oracle, oracle+"/mismatch", ev, "Blocks() = %s, model = %s", fmtRanges(g), fmtRanges(want))
 	}
+	// Blocks are documented as the *continuous* intervals the memory
+	// stores: two reported blocks that touch are one continuous interval
+	// reported in pieces (Missing makes no such promise, see rangesOf).
+	var prev *interval.Interval[model.Addr]
+	for _, iv := range got.Intervals() {
+		iv := iv
+		if iv.Begin() == iv.End() {
+			continue
+		}
+		if prev != nil && prev.End() == iv.Begin() {
+			return !h.ctx.Fail(h.prop, oracle, oracle+"/not-maximal", ev,
+				"Blocks() reports the touching blocks [%#x,%#x) and [%#x,%#x) separately (stored blocks are the maximal continuous runs)", prev.Begin(), prev.End(), iv.Begin(), iv.End())
+		}
+		prev = &iv
+	}
 	return true
 }
 
